@@ -255,6 +255,26 @@ func init() {
 func runC20(c *CheckCtx) {
 	names := []string{"lib/call.call", "lib/call._args", "lib/call._args_ctx", "lib/call._nil_nil", "lib/call._nil_error", "lib/call._result_error", "lib/call._recover",
 		"lib/call.call$1", "lib/call.call$2", "lib/call.call$3", "lib/call.call$4", "lib/call.call$5", "lib/call.call$6"}
+	// every closure of the binder that has the shape of a builtin can be what gets registered: those
+	// without a contract are checked as they are (a call through an unknown function value may panic)
+	if root := c.eng.lookupFunc("lib/call.call"); root != nil {
+		have := map[string]bool{}
+		for _, n := range names {
+			have[n] = true
+		}
+		var visit func(f *ssa.Function)
+		visit = func(f *ssa.Function) {
+			for _, af := range f.AnonFuncs {
+				sig := af.Signature
+				if n := fnName(af); !have[n] && sig.Params().Len() == 2 && sig.Results().Len() == 2 && typeStr(sig.Params().At(0).Type()) == "context.Context" && typeStr(sig.Results().At(1).Type()) == "error" {
+					have[n] = true
+					names = append(names, n)
+				}
+				visit(af)
+			}
+		}
+		visit(root)
+	}
 	jobs := c.jobsFor(names, func(f *ssa.Function) *Job {
 		mode := "obligation"
 		if n := f.Name(); n == "_nil_error" || n == "_result_error" {
